@@ -1,10 +1,120 @@
-//! Low-level solver API with scripted SolOut callbacks (C19) -- filled in later.
+//! Low-level solver API with scripted SolOut callbacks (C19).
 use std::collections::HashMap;
-pub fn run(_kv: &HashMap<String, String>) -> String {
-    "unimplemented\n".to_string()
+use std::panic::{catch_unwind, AssertUnwindSafe};
+
+use ivp::dense::StepInterpolant;
+use ivp::methods::{BDF, DOP853, DOPRI5, RADAU, RK23, RK4};
+use ivp::prelude::*;
+use ivp::solout::SolOut;
+
+use crate::{hx, hxlist, opt_f, parse_method, parse_problem, parse_tol, status_name, unhx, unlist, DefaultMass, H64};
+
+/// script: "k:idx/act/val,..." with act in {I (Interrupt), M (y *= val, ModifiedSolution), N (ModifiedSolution, y unchanged)}
+pub struct Scripted {
+    pub actions: HashMap<usize, (char, f64)>,
+    pub count: usize,
+    pub trace: Vec<(f64, f64, Vec<f64>, bool, Vec<f64>)>,
 }
+
+impl SolOut for Scripted {
+    fn solout(&mut self, xold: f64, x: &mut f64, y: &mut [f64], interp: Option<&StepInterpolant<'_>>) -> ControlFlag {
+        let mid = xold + 0.5 * (*x - xold);
+        let mut ym = vec![0.0; y.len()];
+        if let Some(i) = interp {
+            i.interpolate(mid, &mut ym);
+        }
+        self.trace.push((xold, *x, y.to_vec(), interp.is_some(), ym));
+        let idx = self.count;
+        self.count += 1;
+        match self.actions.get(&idx) {
+            Some(('I', _)) => ControlFlag::Interrupt,
+            Some(('M', v)) => {
+                for yi in y.iter_mut() {
+                    *yi *= *v;
+                }
+                ControlFlag::ModifiedSolution
+            }
+            Some(('N', _)) => ControlFlag::ModifiedSolution,
+            _ => ControlFlag::Continue,
+        }
+    }
+}
+
+pub fn run(kv: &HashMap<String, String>) -> String {
+    let mut out = String::new();
+    let prob = parse_problem(kv);
+    let method = parse_method(&kv["method"]);
+    let x0 = unhx(&kv["x0"]);
+    let xend = unhx(&kv["xend"]);
+    let y0 = unlist(&kv["y0"]);
+    let rtol = parse_tol(&kv["rtol"]);
+    let atol = parse_tol(&kv["atol"]);
+    let first_step = opt_f(&kv["firststep"]);
+    let max_step = opt_f(&kv["maxstep"]);
+    let max_steps: usize = kv["maxsteps"].parse().unwrap();
+    let full = kv.get("full").map(|s| s == "1").unwrap_or(false);
+    let mut actions = HashMap::new();
+    let sc = kv.get("script").map(|s| s.as_str()).unwrap_or("0:");
+    let (_, body) = sc.split_once(':').unwrap();
+    if !body.is_empty() {
+        for t in body.split(',') {
+            let p: Vec<&str> = t.split('/').collect();
+            actions.insert(p[0].parse::<usize>().unwrap(), (p[1].chars().next().unwrap(), unhx(p[2])));
+        }
+    }
+    let mut so = Scripted { actions, count: 0, trace: vec![] };
+    let p = DefaultMass(&prob);
+    let res = catch_unwind(AssertUnwindSafe(|| match method {
+        Method::RK4 => RK4::builder().max_steps(max_steps).build().solve(
+            &p, x0, &y0, xend, first_step.unwrap_or((xend - x0) / 100.0), Some(&mut so)),
+        Method::RK23 => RK23::builder().maybe_max_step(max_step).maybe_first_step(first_step).max_steps(max_steps).build()
+            .solve(&p, x0, &y0, xend, rtol.clone(), atol.clone(), Some(&mut so)),
+        Method::DOPRI5 => DOPRI5::builder().maybe_max_step(max_step).maybe_first_step(first_step).max_steps(max_steps).build()
+            .solve(&p, x0, &y0, xend, rtol.clone(), atol.clone(), Some(&mut so)),
+        Method::DOP853 => DOP853::builder().maybe_max_step(max_step).maybe_first_step(first_step).max_steps(max_steps).build()
+            .solve(&p, x0, &y0, xend, rtol.clone(), atol.clone(), Some(&mut so)),
+        Method::RADAU => RADAU::builder().maybe_max_step(max_step).maybe_first_step(first_step).max_steps(max_steps)
+            .mass_storage(MatrixStorage::Identity).build()
+            .solve(&p, x0, &y0, xend, rtol.clone(), atol.clone(), Some(&mut so)),
+        Method::BDF => BDF::builder().maybe_max_step(max_step).maybe_first_step(first_step).max_steps(max_steps).build()
+            .solve(&p, x0, &y0, xend, rtol.clone(), atol.clone(), Some(&mut so)),
+    }));
+    match res {
+        Err(_) => out.push_str("panic\n"),
+        Ok(Err(_)) => out.push_str("error\n"),
+        Ok(Ok(r)) => {
+            out.push_str(&format!("status {}\n", status_name(&r.status)));
+            out.push_str(&format!(
+                "stats {} {} {} {} {} {}\n",
+                r.evals.ode, r.evals.jac, r.evals.lu, r.steps.total, r.steps.accepted, r.steps.rejected
+            ));
+            out.push_str(&format!("hfinal {}\n", hx(r.h)));
+            let mut h = H64::new();
+            for (xo, x, y, has, ym) in &so.trace {
+                h.f(*xo);
+                h.f(*x);
+                for v in y {
+                    h.f(*v);
+                }
+                h.word(*has as u64);
+                for v in ym {
+                    h.f(*v);
+                }
+            }
+            out.push_str(&format!("trace {} 0x{:016x}\n", so.trace.len(), h.0));
+            for (k, (xo, x, y, has, ym)) in so.trace.iter().enumerate() {
+                if full || k < 3 || k + 2 >= so.trace.len() {
+                    out.push_str(&format!(" call {} {} {} {} {} {}\n", k, hx(*xo), hx(*x), hxlist(y), *has as u8, hxlist(ym)));
+                }
+            }
+            crate::log_summary("odelog", &prob.odelog.borrow(), full, &mut out);
+            crate::log_summary("jaclog", &prob.jaclog.borrow(), full, &mut out);
+        }
+    }
+    out
+}
+
 pub fn implicit_defaults() -> String {
-    use ivp::methods::{BDF, RADAU};
     let r = RADAU::builder().build();
     let b = BDF::builder().build();
     let mut s = String::new();
